@@ -1597,16 +1597,31 @@ def flat_index_roundtrip(check, prog):
             if t[3] == ('const', 'flat'):
                 mit = t[4]
             t = t[1]
+        # the axes of the rebuilt array are the stored array's *dimensions* with
+        # the stand-in renamed -- not its coordinates: a stored image may carry
+        # coordinates that are no axes (the time of a frame, the label of the one
+        # channel it was taken from), and a list of coordinate names is then longer
+        # than the array has axes (the load fails; hp.load reports "no metadata")
+        subs = set(subterms(dm)) if dm is not None else set()
+        from_dims = any(x[0] == 'attr' and x[2] == 'dims' for x in subs)
+        from_coords = any((x[0] == 'attr' and x[2] == 'coords') or
+                          (x[0] == 'call' and x[1] == 'list' and x[2] and
+                           x[2][0][0] == 'attr' and x[2][0][2] == 'coords')
+                          for x in subs)
         ok = mit is not None and mit[0] == 'call' and mit[1].endswith('MultiIndex') and \
-            dm is not None and dm[0] == 'bin' and dm[1] == '+' and \
-            dm[3] == ('list', (('const', 'flat'),)) and \
-            any(x[0] == 'mut' and x[2] == 'remove' and x[3] == (('const', standin),)
-                for x in subterms(dm[2])) and \
+            dm is not None and ('const', 'flat') in subs and \
+            ('const', standin) in subs and from_dims and not from_coords and \
             len(da[2]) >= 1 and da[2][0][0] == 'attr' and da[2][0][2] == 'values'
         detail = 'rebuilt as %s' % show(da)[:200]
+        if dm is not None and from_coords:
+            detail = 'dims=%s lists the coordinates of the stored array: a subset of ' \
+                'a frame with a scalar coordinate (assign_coords(time=2.0); one ' \
+                'plane of a colour stack) is saved but cannot be loaded again' % \
+                show(dm)[:120]
     check.require(ok, 'L13-flat-index-round-trip', 'reader: data re-indexed',
-                  'the values are re-labelled along `flat` by the rebuilt index, the '
-                  'stand-in dimension %r dropped, the other coordinates kept' % standin,
+                  'the values are re-labelled along `flat` by the rebuilt index: the '
+                  'axes are the stored dimensions with the stand-in %r renamed, the '
+                  'other coordinates are kept' % standin,
                   loc, fail_detail=detail)
 
 
